@@ -7,10 +7,18 @@
 EXTENDS Integers, Sequences, FiniteSets, TLC, Json
 
 CONSTANTS MinV, MaxV, NLabels,
-          Deviations   \* {} ; "ScanLeavesIsolatedInPartZero" (as built) ; "ChainAllVertices" (negative control)
+          EditOps,     \* {} : no second phase ; subset of {"remove_cells", "remove_vertices"} : one edit after Compute
+          MaxRemove,   \* an edit removes 1..MaxRemove cells / vertices
+          Deviations   \* {} ; "ScanLeavesIsolatedInPartZero" (as built before 8dd460c) ; negative controls:
+                       \* "ChainAllVertices", "EditKeepsParts" (the labels read before an edit survive it)
 
-VARIABLES inp, out
-vars == <<inp, out>>
+(* History half for curves: parts derived from segments must agree with connectivity after EVERY change of the    *)
+(* geometry.  After Compute (create with parts, read cells, read parts - the labels are now cached in            *)
+(* Curve._parts, curve.py:137-151) one Edit removes a set of cells (CellObject.remove_cells, cell_object.py:76-107)*)
+(* or of vertices (remove_vertices, :109-150: cells touching a removed vertex go, the others are renumbered);      *)
+(* ed holds the geometry and the parts after the edit.                                                             *)
+VARIABLES inp, out, ed
+vars == <<inp, out, ed>>
 Dev(d) == d \in Deviations
 
 RECURSIVE SeqFlatten(_)
@@ -48,11 +56,34 @@ PartsFromCells(n, cells) ==
 \* ---------------------------------------------------------------- behaviour
 Labelings == UNION {[1..n -> 1..NLabels] : n \in MinV..MaxV}
 NoOut == [done |-> FALSE, cells |-> <<>>, parts |-> {}]
-Init == inp \in Labelings /\ out = NoOut
-Compute == ~out.done /\ UNCHANGED inp
+NoEdit == [done |-> FALSE, op |-> "none", idx |-> {}, n |-> 0, cells |-> <<>>, parts |-> {}]
+Init == inp \in Labelings /\ out = NoOut /\ ed = NoEdit
+Compute == ~out.done /\ UNCHANGED <<inp, ed>>
            /\ out' = LET cells == CellsFromParts(inp) IN
                      [done |-> TRUE, cells |-> cells, parts |-> PartsFromCells(Len(inp), cells)]
-Next == Compute
+
+\* ---------------------------------------------------------------- one edit of the geometry
+SmallSubsets(S) == {T \in SUBSET S : T # {} /\ Cardinality(T) <= MaxRemove}
+KeepSeq(seq, drop) == SelectSeq([i \in 1..Len(seq) |-> i], LAMBDA i : i \notin drop)     \* indices kept, in order
+\* cell_object.py:103-105  cells = np.delete(self.cells, indices, axis=0)
+CellsWithout(cells, S) == LET k == KeepSeq(cells, S) IN [m \in 1..Len(k) |-> cells[k[m]]]
+\* cell_object.py:133-150  vertices kept in order and renumbered; cells with a removed end are removed
+NewIndex(n, S, v) == Cardinality({w \in 1..v : w \notin S})
+CellsAfterVertices(n, cells, S) ==
+    LET touched == {c \in 1..Len(cells) : cells[c][1] \in S \/ cells[c][2] \in S}
+        rest == CellsWithout(cells, touched)
+    IN  [m \in 1..Len(rest) |-> <<NewIndex(n, S, rest[m][1]), NewIndex(n, S, rest[m][2])>>]
+EditResult(op, S, n2, cells2) ==
+    [done |-> TRUE, op |-> op, idx |-> S, n |-> n2, cells |-> cells2,
+     parts |-> IF Dev("EditKeepsParts") /\ n2 = Len(inp) THEN out.parts ELSE PartsFromCells(n2, cells2)]
+RemoveCells == "remove_cells" \in EditOps /\ \E S \in SmallSubsets(1..Len(out.cells)) :
+    ed' = EditResult("remove_cells", S, Len(inp), CellsWithout(out.cells, S))
+RemoveVertices == "remove_vertices" \in EditOps /\ \E S \in SmallSubsets(1..Len(inp)) :
+    /\ Cardinality(S) < Len(inp)                         \* at least one vertex stays
+    /\ ed' = EditResult("remove_vertices", S, Len(inp) - Cardinality(S), CellsAfterVertices(Len(inp), out.cells, S))
+Edit == out.done /\ ~ed.done /\ UNCHANGED <<inp, out>> /\ (RemoveCells \/ RemoveVertices)
+
+Next == Compute \/ Edit
 Spec == Init /\ [][Next]_vars
 
 \* ---------------------------------------------------------------- properties (C17)
@@ -69,10 +100,23 @@ CellCount == out.done => Len(out.cells) = N - Cardinality({inp[v] : v \in 1..N})
 PartsAgreeWithConnectivity == out.done => out.parts = Components(N, out.cells)
 \* and the round trip labels -> segments -> components gives the labeling back (as a partition)
 RoundTrip == out.done => Components(N, out.cells) = PartitionOf(inp)
+\* after an edit the labels again agree with the connectivity of the segments that are left
+PartsAgreeAfterEdit == ed.done => ed.parts = Components(ed.n, ed.cells)
+\* removing segments or vertices never joins parts: every part after the edit lies inside one part before it
+EditOnlySplits == (ed.done /\ ed.op = "remove_cells") =>
+                      \A B \in ed.parts : \E A \in out.parts : B \subseteq A
 InputsUnchanged == [][inp' = inp]_vars
 
 \* ---------------------------------------------------------------- export (0-based vertices)
 ZeroBased(S) == {v - 1 : v \in S}
+ExportEdit == ed.done =>
+    PrintT(<<"CASE", ToJson([labels |-> inp,
+                             cells |-> [c \in DOMAIN out.cells |-> <<out.cells[c][1] - 1, out.cells[c][2] - 1>>],
+                             parts |-> {ZeroBased(B) : B \in out.parts},
+                             asbuilt |-> {ZeroBased(B) : B \in PartitionOf(ScanParts(N, out.cells))},
+                             op |-> ed.op, idx |-> ZeroBased(ed.idx), n2 |-> ed.n,
+                             cells2 |-> [c \in DOMAIN ed.cells |-> <<ed.cells[c][1] - 1, ed.cells[c][2] - 1>>],
+                             parts2 |-> {ZeroBased(B) : B \in ed.parts}])>>)
 ExportCase == out.done =>
     PrintT(<<"CASE", ToJson([labels |-> inp,
                              cells |-> [c \in DOMAIN out.cells |-> <<out.cells[c][1] - 1, out.cells[c][2] - 1>>],
